@@ -47,6 +47,13 @@ def rand_title(r, n=None):
     if s:
         s = r.choice(alphabet) + s[1:]
         s = s[:-1] + r.choice(alphabet)
+        k = r.random()
+        if k < 0.2:
+            s = s.ljust(16)[:16]          # space padded to the field width, as PS3.8 prescribes
+        elif k < 0.3 and len(s) > 2:
+            s = s[:-2] + '  '             # trailing spaces inside the field
+        elif k < 0.35 and len(s) > 1:
+            s = ' ' + s[1:]               # leading space
     return s.encode()
 
 
